@@ -105,6 +105,9 @@ theorem rpUnlock_frame {s s' : State} {j v : Nat} (h : rpUnlock s j v = .ok s') 
   unfold rpUnlock at h; ok_branches h
   have hp := payOut_frame ‹payOut _ _ _ = Except.ok _›; exact ⟨hp.1, hp.2⟩
 
+theorem readRedeem_frame {s s' : State} {k i j p : Nat} (h : readRedeem s k i j p = .ok s') : Frame s s' := by
+  unfold readRedeem at h; ok_branches h; exact ⟨rfl, rfl⟩
+
 theorem assign_frame {bs : Nat} {s s' : State} {i : Nat} {ba : BA} (h : assign bs s i = .ok (s', ba)) :
     Frame s s' ∧ ba.cv = 0 := by
   unfold assign at h; ok_branches h; exact ⟨⟨rfl, rfl⟩, rfl⟩
